@@ -441,6 +441,18 @@ def shared_struct_fcfg(rng):
 
 def bars_fcfg(rng):
     """alternatives on one line, each with its own atomic body features: S -> X[f=x] a | X[f=y] b | Y[g=x] X[f=y]"""
+    if rng.random() < 0.5:
+        # the head carries a variable that each alternative uses: X[f=?n] -> Y[f=?n] | Z[f=?n] Y[f=?n]
+        ax, ay = ATOMS[0], ATOMS[1]
+        prods = [["S", {}, [["V", "X", {"f": "?a"}], ["V", "V", {"f": "?a"}]]],
+                 ["X", {"f": "?n"}, [["V", "Y", {"f": "?n"}]]],
+                 ["X", {"f": "?n"}, [["V", "Z", {"f": "?n"}], ["V", "Y", {"f": "?n"}]]],
+                 ["Y", {"f": ax}, [["T", "a"]]], ["Y", {"f": ay}, [["T", "b"]]],
+                 ["Z", {"f": rng.choice(ATOMS)}, [["T", rng.choice("ab")]]],
+                 ["V", {"f": ax}, [["T", "a"]]], ["V", {"f": ay}, [["T", "b"]]]]
+        if rng.random() < 0.5:
+            prods[1], prods[2] = prods[2], prods[1]
+        return {"kind": "fcfg", "prods": prods, "via": "text", "bars": True}
     alts = []
     for _ in range(rng.randint(2, 3)):
         body = []
